@@ -68,3 +68,137 @@ Proof.
     clear. revert s; induction k; intros [|? ?]; cbn; try reflexivity. f_equal. auto.
   - f_equal. apply IH. apply Hs.
 Qed.
+
+(* ---- push step ---- *)
+Lemma length_ins x l : length (ins x l) = S (length l).
+Proof. induction l as [|y l IH]; cbn; [reflexivity|]. destruct (y <? x); cbn; [reflexivity|rewrite IH; reflexivity]. Qed.
+Lemma length_sortd l : length (sortd l) = length l.
+Proof. unfold sortd. induction l as [|a l IH]; cbn; [reflexivity|]. rewrite length_ins, IH; reflexivity. Qed.
+Lemma minl_le a l : minl a l <= a /\ forall y, In y l -> minl a l <= y.
+Proof.
+  revert a; induction l as [|b l IH]; intro a; cbn; [split; [lia|intros ? []]|].
+  destruct (IH (Z.min a b)) as [H1 H2]. split; [lia|].
+  intros y [<-|Hy]; [lia|auto].
+Qed.
+Lemma minl_in a l : minl a l = a \/ In (minl a l) l.
+Proof.
+  revert a; induction l as [|b l IH]; intro a; cbn; [left; reflexivity|].
+  destruct (IH (Z.min a b)) as [H|H]; [|right; right; exact H].
+  rewrite H. destruct (Z.min_spec a b) as [[_ ->]|[_ ->]]; [left|right; left]; reflexivity.
+Qed.
+Lemma remove1_perm x l : In x l -> Permutation l (x :: remove1 x l).
+Proof.
+  induction l as [|y l IH]; [intros []|]. intros Hin. cbn.
+  destruct (Z.eqb_spec y x) as [->|Hne]; [reflexivity|].
+  destruct Hin as [->|Hin]; [congruence|]. rewrite (IH Hin) at 1. apply perm_swap.
+Qed.
+(* dropping the last element of a descending list = removing a minimum *)
+Lemma desc_app_min s m : desc (s ++ [m]) -> forall y, In y s -> m <= y.
+Proof.
+  induction s as [|z s IH]; [intros _ ? []|]. cbn. intros [Hz Hd] y [<-|Hy].
+  - apply Hz. apply in_or_app; right; left; reflexivity.
+  - apply IH; assumption.
+Qed.
+Lemma firstn_app_len {A} (s : list A) t : firstn (length s) (s ++ t) = s.
+Proof. induction s; cbn; [destruct t; reflexivity|]. f_equal; assumption. Qed.
+
+Lemma firstn_in {A} (l : list A) : forall k y, In y (firstn k l) -> In y l.
+Proof. induction l as [|w l IH]; intros [|k] y Hy; cbn in *; try contradiction.
+  destruct Hy as [<-|Hy]; [left; reflexivity|right; eapply IH; exact Hy]. Qed.
+Lemma desc_firstn l : forall k, desc l -> desc (firstn k l).
+Proof. induction l as [|z s IH]; intros [|k] H; cbn; try exact I.
+  destruct H as [Hz Hd]. split; [|apply IH; exact Hd]. intros y Hy. apply Hz. eapply firstn_in; exact Hy. Qed.
+(* two descending lists, each "everything but one minimum" of permutation-equal bags, coincide *)
+Lemma topk_step_full k q x : length q = k -> k <> 0%nat ->
+  sortd (push k q x) = firstn k (ins x (sortd q)).
+Proof.
+  intros Hlen Hk. unfold push. rewrite Hlen, Nat.ltb_irrefl.
+  destruct q as [|a q']; [cbn in Hlen; lia|].
+  set (q := a :: q') in *. set (m := minl a q').
+  assert (Hm_in : In m q) by (unfold m, q; destruct (minl_in a q') as [->|H]; [left; reflexivity|right; exact H]).
+  assert (Hm_le : forall y, In y q -> m <= y).
+  { unfold m, q. destruct (minl_le a q') as [H1 H2]. intros y [<-|Hy]; [exact H1|apply H2; exact Hy]. }
+  (* the full sorted list of x :: q *)
+  set (full := ins x (sortd q)).
+  assert (Hfull_d : desc full) by (apply ins_desc, sortd_desc).
+  assert (Hfull_p : Permutation full (x :: q)) by (unfold full; rewrite ins_perm, sortd_perm; reflexivity).
+  assert (Hfull_len : length full = S k) by (unfold full; rewrite length_ins, length_sortd; lia).
+  (* split full = firstn k full ++ [e] *)
+  assert (Hsplit : full = firstn k full ++ skipn k full) by (symmetry; apply firstn_skipn).
+  assert (Hsk : length (skipn k full) = 1%nat) by (rewrite skipn_length; lia).
+  destruct (skipn k full) as [|e [|? ?]] eqn:Esk; try (cbn in Hsk; lia).
+  assert (He_min : forall y, In y (firstn k full) -> e <= y).
+  { apply desc_app_min. rewrite <- Hsplit. exact Hfull_d. }
+  assert (Hd1 : desc (firstn k full)) by (apply desc_firstn; exact Hfull_d).
+  destruct (Z.ltb_spec m x) as [Hlt|Hge].
+  - (* x replaces a minimum m *)
+    apply desc_perm_eq; [apply sortd_desc|exact Hd1|].
+    rewrite sortd_perm.
+    (* x :: remove1 m q  ~  firstn k full, via cancelling one minimum *)
+    assert (P1 : Permutation (x :: q) (m :: x :: remove1 m q)).
+    { rewrite (remove1_perm m q Hm_in) at 1. apply perm_swap. }
+    assert (P2 : Permutation (x :: q) (e :: firstn k full)).
+    { rewrite <- Hfull_p. rewrite Hsplit at 1. rewrite Permutation_app_comm. reflexivity. }
+    assert (e = m).
+    { assert (In e (x :: q)) by (eapply Permutation_in; [apply Permutation_sym; exact P2|left; reflexivity]).
+      assert (In m (e :: firstn k full)) by (eapply Permutation_in; [exact P2|right; exact Hm_in]).
+      destruct H as [<-|He]; destruct H0 as [->|Hm]; try reflexivity.
+      - specialize (He_min _ Hm). lia.
+      - specialize (He_min _ Hm). specialize (Hm_le _ He). lia. }
+    subst e. apply (Permutation_cons_inv (a:=m)). rewrite <- P1, <- P2. reflexivity.
+  - (* x is itself a minimum: heap unchanged *)
+    apply desc_perm_eq; [apply sortd_desc|exact Hd1|].
+    rewrite sortd_perm.
+    assert (P2 : Permutation (x :: q) (e :: firstn k full)).
+    { rewrite <- Hfull_p. rewrite Hsplit at 1. rewrite Permutation_app_comm. reflexivity. }
+    assert (e = x).
+    { assert (In e (x :: q)) by (eapply Permutation_in; [apply Permutation_sym; exact P2|left; reflexivity]).
+      assert (In x (e :: firstn k full)) by (eapply Permutation_in; [exact P2|left; reflexivity]).
+      destruct H as [<-|He]; [reflexivity|]. destruct H0 as [->|Hx]; [reflexivity|].
+      specialize (He_min _ Hx). specialize (Hm_le _ He). lia. }
+    subst e. apply (Permutation_cons_inv (a:=x)). exact P2.
+Qed.
+
+Lemma remove1_length x l : In x l -> S (length (remove1 x l)) = length l.
+Proof. intro H. change (S (length (remove1 x l))) with (length (x :: remove1 x l)).
+  apply Permutation_length. symmetry. apply remove1_perm; exact H. Qed.
+
+Lemma push_inv k q seen x :
+  sortd q = topk k seen -> length q = Nat.min k (length seen) ->
+  sortd (push k q x) = topk k (x :: seen) /\ length (push k q x) = Nat.min k (S (length seen)).
+Proof.
+  intros Hs Hl.
+  assert (Htop : topk k (x :: seen) = firstn k (ins x (sortd q))).
+  { unfold topk. cbn [sortd fold_right]. fold (sortd seen).
+    rewrite firstn_ins by apply sortd_desc. fold (topk k seen). rewrite <- Hs. reflexivity. }
+  rewrite Htop. destruct (Nat.ltb_spec (length q) k) as [Hlt|Hge].
+  - unfold push. destruct (Nat.ltb_spec (length q) k); [|lia]. split.
+    + cbn [sortd fold_right]. fold (sortd q). rewrite firstn_all2; [reflexivity|].
+      rewrite length_ins, length_sortd. lia.
+    + cbn [length]. lia.
+  - assert (Hk : length q = k) by lia.
+    destruct (Nat.eq_dec k 0) as [->|Hk0].
+    + destruct q; [|cbn in Hk; lia]. cbn. split; reflexivity.
+    + split; [apply topk_step_full; assumption|].
+      unfold push. destruct (Nat.ltb_spec (length q) k); [lia|].
+      destruct q as [|a q']; [cbn in Hk; lia|].
+      cbv zeta. destruct (minl a q' <? x).
+      * cbn [length]. rewrite remove1_length; [cbn [length] in *; lia|].
+        destruct (minl_in a q') as [->|H']; [left; reflexivity|right; exact H'].
+      * lia.
+Qed.
+
+(* HeapDict for one key: after any push sequence, get_result = the k largest pushed, descending *)
+Theorem heap_topk k xs : sortd (fold_left (push k) xs []) = topk k (rev xs).
+Proof.
+  assert (G : forall xs q seen, sortd q = topk k seen -> length q = Nat.min k (length seen) ->
+              sortd (fold_left (push k) xs q) = topk k (rev xs ++ seen)).
+  { clear xs. induction xs as [|x xs IH]; intros q seen Hs Hl; cbn [fold_left rev app]; [exact Hs|].
+    destruct (push_inv k q seen x Hs Hl) as [Hs' Hl'].
+    rewrite (IH _ (x :: seen) Hs'); [|cbn [length]; exact Hl'].
+    rewrite <- app_assoc. reflexivity. }
+  rewrite (G xs [] []); [rewrite app_nil_r; reflexivity| |].
+  - unfold topk. cbn. rewrite firstn_nil. reflexivity.
+  - cbn. rewrite Nat.min_0_r. reflexivity.
+Qed.
+Print Assumptions heap_topk.
